@@ -52,6 +52,8 @@ def make_num(arith):
         return lambda n, d=1: Exact(n, d)
     if arith == "npfloat":
         return lambda n, d=1: np.float64(n) / np.float64(d)
+    if arith == "npfloat32":       # single precision losses / outputs (C16 only: no reference values are compared)
+        return lambda n, d=1: np.float32(n) / np.float32(d)
     return lambda n, d=1: float(n) / float(d)
 
 
@@ -526,6 +528,8 @@ def alpha_value(world, a):
     if a is None:
         return None
     if isinstance(a, list):
+        if world.arith == "npfloat32":       # single precision applies to losses/outputs, not to the configuration
+            return float(a[0]) / float(a[1])
         return world.num(a[0], a[1])
     return a
 
